@@ -10,7 +10,9 @@ queries must be what it was before, the continuation of B's suspended query must
 rest of the answers it had when it started, and B's atoms keep their identity.
 Ob C04.b (generator interleavings): two or three queries (same engine or different
 engines, disjoint variables) are stepped according to a symbolic schedule word; each
-produces exactly the answers it produces when run alone.
+produces exactly the answers it produces when run alone, and the answer a suspended generator
+is holding is re-read after every step of another generator and must not have changed
+(goal nv/1 leaves its variable aliased to the renamed variable of a non-ground stored fact).
 Ob C04.c (heap disjointness, monitored on every explored path of a and b): the mutable
 objects reachable from the two engine instances are disjoint and no module-/class-level container
 of yldprolog.engine changes while the engines are used - the sufficient condition for the thread part of the
@@ -41,8 +43,8 @@ EXPLANATION = ('CrossHair executes an arbitrary operation on one engine while an
                'query) is observed; and symbolic schedules of next() over several suspended queries; on every path the observed engine '
                'behaves as when alone and the two object graphs are disjoint; CONFIRMED = path tree exhausted')
 
-POOL = ["p(1).\np(2) :- !.\np(3).\nt(X) :- (p(X) -> true ; X = 0).\nn1(5) :- nd(f(5)).\nn2(6) :- nd(f(6)).\n",
-        "p(10).\nq(X) :- p(X), \\+ X = 10.\nq(99).\nt(X) :- q(X).\nn1(5) :- nd(f(5)).\nn2(6) :- nd(f(6)).\n"]
+POOL = ["p(1).\np(2) :- !.\np(3).\nt(X) :- (p(X) -> true ; X = 0).\nn1(5) :- nd(f(5)).\nn2(6) :- nd(f(6)).\nnv(X) :- nd(f(X)).\n",
+        "p(10).\nq(X) :- p(X), \\+ X = 10.\nq(99).\nt(X) :- q(X).\nn1(5) :- nd(f(5)).\nn2(6) :- nd(f(6)).\nnv(X) :- nd(f(X)).\n"]
 BATTERY = [('p', 1), ('q', 1), ('t', 1), ('u', 1)]
 OPS = ['load', 'assert', 'retract', 'retractall', 'register', 'clear', 'atom', 'query', 'assert_other']
 
@@ -267,10 +269,10 @@ def make_body_a(info):
 def make_body_b(ngen, nsteps, info):
     codes = [_compile(s) for s in POOL]
     spec = [('same', 'bool', None), ('fa', 'bool', None), ('va', 'int', None)]
-    spec += [('g%d' % i, 'int', '0 <= g%d <= 5' % i) for i in range(ngen)]       # which goal each generator runs
+    spec += [('g%d' % i, 'int', '0 <= g%d <= 6' % i) for i in range(ngen)]       # which goal each generator runs
     spec += [('w%d' % i, 'int', '0 <= w%d <= %d' % (i, ngen - 1)) for i in range(nsteps)]
     ix = ch.index_of(spec)
-    GOALS = [('p', 1), ('t', 1), ('q', 1), ('u', 1), ('n1', 1), ('n2', 1)]     # n1/n2 use the non-ground dynamic fact nd(f(_))
+    GOALS = [('p', 1), ('t', 1), ('q', 1), ('u', 1), ('n1', 1), ('n2', 1), ('nv', 1)]     # n1/n2/nv use the non-ground dynamic fact nd(f(_)); nv leaves its variable aliased to the fact's
 
     def body(vals):
         ch.install_registry(False)
@@ -310,6 +312,8 @@ def make_body_b(ngen, nsteps, info):
                 gens.append(yp.query(name, [x]))
                 got.append([])
             done = [False] * ngen
+            cur = [None] * ngen           # the answer each suspended generator is holding
+            held = [False] * ngen
             for sidx in range(nsteps):
                 w = g('w%d' % sidx)
                 which = 0
@@ -321,8 +325,17 @@ def make_body_b(ngen, nsteps, info):
                 try:
                     next(gens[which])
                     got[which].append(to_python(xs[which]))
+                    cur[which] = got[which][-1]
+                    held[which] = True
                 except StopIteration:
                     done[which] = True
+                    held[which] = False
+                # the answers held by the OTHER suspended generators are untouched by this step
+                for j in range(ngen):
+                    if j != which and held[j] and to_python(xs[j]) != cur[j]:
+                        ch.note(info, 'the answer held by suspended generator %d changed from %r to %r when generator %d was stepped',
+                                j, cur[j], to_python(xs[j]), which)
+                        return ch.VIOLATED
             for i in range(ngen):
                 if not done[i]:
                     for _ in gens[i]:
@@ -357,13 +370,13 @@ def units(tier, seed):
                                timeout=300 if tier == 'quick' else 1200, weight=60,
                                bounds='operation %s on A; B has script %d; %r; all other state codes symbolic' % (OPS[op], sB, fxa)))
     ngen, nsteps = (2, 6) if tier == 'quick' else (2, 9)
-    for g0 in range(6):
-        for g1 in range(6):
+    for g0 in range(7):
+        for g1 in range(7):
             if tier == 'quick' and (g1 < g0 or (g0 < 4 and g1 >= 4 and g0 != 0)):
                 continue
             us.append(dict(id='b.sched.g%d-g%d' % (g0, g1), kind='b', ngen=ngen, nsteps=nsteps, fixed={'g0': g0, 'g1': g1}, ob='C04.b',
                            timeout=300 if tier == 'quick' else 2400, weight=60,
-                           bounds='%d generators, schedule of %d steps, goals %d/%d of p t q u n1 n2' % (ngen, nsteps, g0, g1)))
+                           bounds='%d generators, schedule of %d steps, goals %d/%d of p t q u n1 n2 nv' % (ngen, nsteps, g0, g1)))
     if tier != 'quick':
         for g0, g1, g2 in ((0, 1, 0), (1, 1, 2), (0, 4, 5), (4, 5, 4), (3, 0, 1), (2, 2, 2)):
             us.append(dict(id='b.sched3.g%d-g%d-g%d' % (g0, g1, g2), kind='b', ngen=3, nsteps=7, fixed={'g0': g0, 'g1': g1, 'g2': g2}, ob='C04.b',
